@@ -13,6 +13,11 @@ package standard
 //	                                           // provider (acct), scheduler calls (cancel, sched, run)
 //	h.Jobs(), h.Executed(), h.Fetches()        // projections (job table incl. validators, executed duties)
 //	h.Held(), h.TakeCalls()                    // calls waiting at a delaying interface; job table changes seen
+//	h.SetAccounts(vals, fail)                  // what the accounts provider answers from now on: the active validators
+//	                                           // (any subset, also none) or an error; default: all of Cfg.Vals
+//	h.Watchdog = true; h.TakeHung()            // stimuli run on goroutines of their own; a goroutine of the controller that is
+//	                                           // still there when nothing moves any more and that waits at none of the
+//	                                           // scripted interfaces is reported (once) instead of being waited for
 //
 // Every stimulus returns after the controller's goroutines have finished or wait at a delaying
 // interface (c03Harness.Quiesce).  The controller is given the recording scheduler behind a gate
@@ -26,6 +31,7 @@ import (
 	"runtime"
 	"sort"
 	"strconv"
+	"strings"
 	"sync"
 	"time"
 
@@ -177,6 +183,9 @@ type c03Harness struct {
 	SyncSubscriber            synccommitteesubscriber.Service
 	// Extra controller parameters appended at Start (applied last).
 	ExtraParams []Parameter
+	// Watchdog: run head events and job starts on goroutines of their own and report goroutines of the
+	// controller that never finish (TakeHung) instead of silently getting used to them.
+	Watchdog bool
 
 	mu        sync.Mutex
 	depVer    map[int64]int // boundary -> version
@@ -190,6 +199,18 @@ type c03Harness struct {
 	held      []*c03Held
 	handlers  map[string]eth2client.EventHandlerFunc
 	baseline  int
+	acctSet   bool     // SetAccounts has been called: acctVals / acctErr are the answer (else: all of Cfg.Vals)
+	acctVals  []uint64 // active validators
+	acctErr   bool     // the lookup fails
+	hung      []c03Hung
+	hungIDs   map[string]bool
+}
+
+// c03Hung is a goroutine of the controller that did not finish: the innermost method of the controller's
+// Service on its stack and what it is blocked in.
+type c03Hung struct {
+	Fn    string `json:"fn"`
+	State string `json:"state"`
 }
 
 // c03Held is a call that waits at a delaying interface (see c03Parked).
@@ -483,13 +504,41 @@ func (h *c03Harness) accounts(indices []phase0.ValidatorIndex, all bool) map[pha
 	return res
 }
 
+// SetAccounts scripts what the accounts provider answers from now on to the lookups "all accounts of the
+// epoch" (ValidatingAccountsForEpoch, SyncCommitteeAccountsForEpoch): the active validators vals (any
+// subset of Cfg.Vals, also none), or an error.  A lookup that waits at the delaying interface "acct" gets
+// the answer in force when it is let through.  The by-index lookups keep answering from Cfg.Vals.
+func (h *c03Harness) SetAccounts(vals []uint64, fail bool) {
+	h.mu.Lock()
+	h.acctSet, h.acctVals, h.acctErr = true, append([]uint64{}, vals...), fail
+	h.mu.Unlock()
+}
+
+// active answers a lookup of all accounts now.
+func (h *c03Harness) active() (map[phase0.ValidatorIndex]e2wtypes.Account, error) {
+	h.mu.Lock()
+	set, vals, fail := h.acctSet, h.acctVals, h.acctErr
+	h.mu.Unlock()
+	if !set {
+		return h.accounts(nil, true), nil
+	}
+	if fail {
+		return nil, errors.New("scripted: accounts lookup failed")
+	}
+	res := map[phase0.ValidatorIndex]e2wtypes.Account{}
+	for _, v := range vals {
+		res[phase0.ValidatorIndex(v)] = &c03Account{index: v}
+	}
+	return res, nil
+}
+
 func (h *c03Harness) ValidatingAccountsForEpoch(ctx context.Context, epoch phase0.Epoch) (map[phase0.ValidatorIndex]e2wtypes.Account, error) {
 	if c03ProbeOf(ctx) != nil {
 		return nil, errC03Probe
 	}
 	h.note()
 	h.park("acct", uint64(epoch), 0, "")
-	return h.accounts(nil, true), nil
+	return h.active()
 }
 
 func (h *c03Harness) ValidatingAccountsForEpochByIndex(_ context.Context, _ phase0.Epoch, indices []phase0.ValidatorIndex) (map[phase0.ValidatorIndex]e2wtypes.Account, error) {
@@ -499,7 +548,7 @@ func (h *c03Harness) ValidatingAccountsForEpochByIndex(_ context.Context, _ phas
 
 func (h *c03Harness) SyncCommitteeAccountsForEpoch(_ context.Context, _ phase0.Epoch) (map[phase0.ValidatorIndex]e2wtypes.Account, error) {
 	h.note()
-	return h.accounts(nil, true), nil
+	return h.active()
 }
 
 func (h *c03Harness) SyncCommitteeAccountsForEpochByIndex(_ context.Context, _ phase0.Epoch, indices []phase0.ValidatorIndex) (map[phase0.ValidatorIndex]e2wtypes.Account, error) {
@@ -728,7 +777,7 @@ func (h *c03Harness) HeadEvent() error {
 			CurrentDutyDependentRoot:  cur,
 		},
 	}
-	if delayedRun {
+	if delayedRun || h.Watchdog {
 		// the handler itself fast-tracks (RunJobIfExists): it may have to wait there
 		go h.handlers["head"](ev)
 	} else {
@@ -740,8 +789,21 @@ func (h *c03Harness) HeadEvent() error {
 // FireTicker runs the periodic epoch ticker job.
 func (h *c03Harness) FireTicker() (bool, error) {
 	h.begin()
-	ok := h.Sched.Fire(h.Ctx, "Epoch ticker")
-	return ok, h.Quiesce()
+	return h.fire("Epoch ticker")
+}
+
+// fire starts the named job as the scheduler's timer does (with the watchdog: on a goroutine of its own,
+// as the real scheduler does, so that a job that never returns does not take the driver with it).
+func (h *c03Harness) fire(name string) (bool, error) {
+	if !h.Watchdog {
+		ok := h.Sched.Fire(h.Ctx, name)
+		return ok, h.Quiesce()
+	}
+	if h.Sched.Get(name) == nil {
+		return false, h.Quiesce()
+	}
+	go h.Sched.Fire(h.Ctx, name)
+	return true, h.Quiesce()
 }
 
 // SetHeadSlot scripts the head slot the node reports to proposeEarly (-1: error).
@@ -757,8 +819,7 @@ func (h *c03Harness) FireJob(name string) (bool, error) {
 	if h.Sched.Get(name) != nil {
 		h.noteTable("rm", name)
 	}
-	ok := h.Sched.Fire(h.Ctx, name)
-	return ok, h.Quiesce()
+	return h.fire(name)
 }
 
 // Hold makes an interface delaying: the scripted node keeps back replies for duty kind k (att, prop,
@@ -835,6 +896,12 @@ func (h *c03Harness) Quiesce() error {
 			lastN, lastCalls = n, calls
 			stableSince = time.Now()
 		} else if time.Since(stableSince) > 400*time.Millisecond {
+			if h.Watchdog && !h.watch(deadline) {
+				// something moved after all
+				lastN, lastCalls = 0, 0
+				stableSince = time.Now()
+				continue
+			}
 			h.baseline = n - nh
 			return nil
 		}
@@ -847,6 +914,98 @@ func (h *c03Harness) Quiesce() error {
 			time.Sleep(200 * time.Microsecond)
 		}
 	}
+}
+
+// ---------------------------------------------------------------------------------------------
+// watchdog
+
+var (
+	c03GoroutineHead = regexp.MustCompile(`^goroutine (\d+) \[([^\],]+)`)
+	c03ServiceFrame  = regexp.MustCompile(`services/controller/standard\.\(\*Service\)\.([A-Za-z0-9_]+)`)
+)
+
+// lingering lists the goroutines that have a method of the controller's Service on their stack and do
+// not wait at one of the harness's delaying interfaces: id -> (innermost Service method, state).
+func (h *c03Harness) lingering() map[string]c03Hung {
+	buf := make([]byte, 1<<20)
+	for {
+		n := runtime.Stack(buf, true)
+		if n < len(buf) {
+			buf = buf[:n]
+			break
+		}
+		buf = make([]byte, 2*len(buf))
+	}
+	res := map[string]c03Hung{}
+	for _, g := range strings.Split(string(buf), "\n\n") {
+		m := c03GoroutineHead.FindStringSubmatch(g)
+		if m == nil {
+			continue
+		}
+		f := c03ServiceFrame.FindStringSubmatch(g)
+		if f == nil || strings.Contains(g, "c03Harness).park") {
+			continue
+		}
+		res[m[1]] = c03Hung{Fn: f[1], State: m[2]}
+	}
+	return res
+}
+
+func c03Blocked(state string) bool {
+	switch state {
+	case "running", "runnable", "syscall", "sleep":
+		return false
+	}
+	return true
+}
+
+// watch is called when nothing has moved for a while although more goroutines are there than before the
+// stimulus.  Goroutines of the controller that are blocked (not merely slow), wait at none of the scripted
+// interfaces and stay so for another 1.5 s are recorded as hung (each once) and true is returned: the
+// caller gets used to them.  False: something is still moving, keep waiting.
+func (h *c03Harness) watch(deadline time.Time) bool {
+	first := h.lingering()
+	for id, g := range first {
+		if h.hungIDs[id] {
+			delete(first, id)
+		} else if !c03Blocked(g.State) {
+			return false
+		}
+	}
+	if len(first) == 0 {
+		return true // an unrelated goroutine
+	}
+	until := time.Now().Add(1500 * time.Millisecond)
+	for time.Now().Before(until) && time.Now().Before(deadline) {
+		time.Sleep(50 * time.Millisecond)
+		now := h.lingering()
+		for id, g := range first {
+			if x, ok := now[id]; !ok || x != g {
+				return false
+			}
+		}
+	}
+	if h.hungIDs == nil {
+		h.hungIDs = map[string]bool{}
+	}
+	ids := make([]string, 0, len(first))
+	for id := range first {
+		ids = append(ids, id)
+	}
+	sort.Strings(ids)
+	for _, id := range ids {
+		h.hungIDs[id] = true
+		h.hung = append(h.hung, first[id])
+	}
+	return true
+}
+
+// TakeHung returns the goroutines of the controller found hung since the last call.
+func (h *c03Harness) TakeHung() []c03Hung {
+	res := h.hung
+	h.hung = nil
+	sort.Slice(res, func(i, j int) bool { return res[i].Fn < res[j].Fn })
+	return res
 }
 
 // ---------------------------------------------------------------------------------------------
